@@ -487,6 +487,7 @@ func runC07(c *Ctx) {
 		}
 	})
 	runRealListerFaults(c)
+	runC07Getter(c)
 }
 
 func c07Oracle(c *Ctx) func(a *AdmitCase, g AdmitOut) {
